@@ -35,6 +35,15 @@ CHECKS = {
  "C18": dict(cat="exploration", tech="proptest graphs over XML-legal/illegal text, QName split points, reserved names, odd blank labels x indentation; own XML well-formedness checker + parse-back exact isomorphism; metamorphic indentation relation",
    text="Serialising must fail with an error or give a well-formed document (own XML 1.0 checker) that sophia's parser reads back isomorphic to the expressible part; must-succeed class (QName-able predicates, XML-legal text) may not fail or lose anything; parse at indentation k equals parse at 0.",
    note="Trusted: harness XML well-formedness checker, iso.rs. Only sophia's parser is used as RDF/XML reader. rio_xml dropping whitespace-only literals on parse is a known finding.", ref="5/C18, 11"),
+ "C05": dict(cat="exploration", tech="proptest symmetric blank-node families; metamorphic pairs (relabel+shuffle+other container; near-isomorphic mutants) judged by exact isomorphism search; output re-read by independent N-Quads reader",
+   text="For each dataset an isomorphic twin and a near-isomorphic mutant: canonical bytes equal iff exact isomorphism (tags literal), output sorted, labels exactly c14n0..n-1, parse-back isomorphic, issued-id map a bijection reproducing the returned quads; both hash functions.",
+   note="Trusted: iso.rs (tags compared literally through a pseudo-datatype wrapper), nqread.rs. Cases whose reference canonicalisation exceeds a work budget are skipped and counted. One RDFC-1.0-inherent ambiguity is a trigger-keyed known finding.", ref="5/C05, 11"),
+ "C06": dict(cat="exploration", tech="differential testing against an independent RDFC-1.0 reference implementation (unpruned) over exhaustively enumerated small blank-node digraphs + sampled symmetric families x hash x limits",
+   text="Exhaustive: all 512 digraphs with self-loops on 3 blank nodes (x decoration x hash), all 2-node two-predicate and blank-graph-name digraphs; sampled families up to 14 blank nodes; output bytes and issued ids must equal the reference, Unsupported/ToxicGraph only when justified by the unpruned reference exceeding the limits.",
+   note="Trusted: the harness reference (c06.rs rdfc_ref, written from the Recommendation's numbered steps, self-checked against the 7 vectors shipped in c14n tests on every run). U+FFFE/FFFF excluded. Orders the text leaves open are accepted via a reproducing bijection.", ref="5/C06, 11"),
+ "C07": dict(cat="exploration", tech="proptest generalized datasets with positive twins (bijective relabel + shuffle + container) and negative mutants; exact isomorphism search decides when 'true' is mandatory, blanked-out multisets decide when 'false' is mandatory",
+   text="Generalized datasets/graphs (all term kinds anywhere, nested quoted triples with blank nodes, blank graph names) on 5x5 container pairs: relabelled copies must answer true both ways, answers symmetric, false whenever size / blank count / blanked statements differ. False positives allowed by the contract are only counted.",
+   note="Trusted: iso.rs as ground truth for 'isomorphic'.", ref="5/C07, 11"),
 }
 NOT_APPLICABLE = []
 def main():
